@@ -88,6 +88,10 @@ type Txn struct {
 	At     time.Duration
 	State  string // pending acked unknown
 	EndAt  time.Duration
+	// Killed: the client's session was killed (KILL, offline_mode) while the commit waits for a semi-sync acknowledgement.
+	// The client has lost its connection (outcome unknown to it for good), but the server thread keeps waiting - it still
+	// blocks SET read_only and shows as waiting - until it is acknowledged or the master plugin is switched off (M7).
+	Killed bool
 }
 
 // Event is one record of the global event log.
@@ -430,6 +434,9 @@ func (w *World) OpenConns() map[string]int {
 
 func (w *World) failPendingLocked(host, state string) {
 	for _, t := range w.pending[host] {
+		if t.Killed {
+			continue // its client went away long ago; nothing is reported to anybody
+		}
 		t.State = state
 		t.EndAt = time.Since(w.T0)
 		if state == "acked" {
@@ -444,8 +451,35 @@ func (w *World) failPendingLocked(host, state string) {
 	w.pending[host] = nil
 }
 
+// killPendingLocked marks the waiting commits of host (all, or those of one session) as killed: unknown to the client,
+// still waiting on the server (M7).
+func (w *World) killPendingLocked(host string, session int) {
+	n := 0
+	for _, t := range w.pending[host] {
+		if t.Killed || (session >= 0 && 1000+t.Client != session) {
+			continue
+		}
+		t.Killed, t.State, t.EndAt = true, "unknown", time.Since(w.T0)
+		n++
+	}
+	if n > 0 {
+		w.LogLocked(Event{Kind: "world", Who: "world", Host: host, Class: "pending-killed", Arg: fmt.Sprint(n)})
+	}
+}
+
 // PendingLocked returns the number of commits waiting for acknowledgement on host.
 func (w *World) PendingLocked(host string) int { return len(w.pending[host]) }
+
+// LivePendingLocked counts the waiting commits whose client is still connected (releasing them tells a client "ok").
+func (w *World) LivePendingLocked(host string) int {
+	n := 0
+	for _, t := range w.pending[host] {
+		if !t.Killed {
+			n++
+		}
+	}
+	return n
+}
 
 // Commit tries one client commit on host. Result: "ack", "pending", "refused", "busy".
 func (w *World) Commit(host string, client int) string {
@@ -460,7 +494,7 @@ func (w *World) Commit(host string, client int) string {
 		return "busy" // a pending SET read_only blocks new commits
 	}
 	for _, t := range w.pending[host] {
-		if t.Client == client {
+		if t.Client == client && !t.Killed {
 			return "busy"
 		}
 	}
@@ -505,6 +539,9 @@ func (w *World) ackLocked(host string) {
 	var keep []*Txn
 	for _, t := range w.pending[host] {
 		if !m.SSMaster || m.WaitCount <= 0 || w.ackersLocked(host, t) >= m.WaitCount {
+			if t.Killed {
+				continue
+			}
 			t.State = "acked"
 			t.EndAt = time.Since(w.T0)
 			for _, f := range w.OnAck {
